@@ -169,7 +169,6 @@ class Session:
         ev["out"] = out
         try:
             if op == "intervals":
-                p._intervals = None if a.get("fresh") else p._intervals
                 iv = p.intervals
                 ev["out"] = [[time_recs(s, tai=False)[0], time_recs(e, tai=False)[0]] for s, e in iv]
                 return ev
@@ -322,7 +321,7 @@ class PolyGen:
                         gap = (tm[j] - tm[i] - step_days) * 86400000
                         if abs(gap - 1) < F(2, 100):
                             ok = False
-            if ok and leap_free(int(tm[0]) - 1, int(tm[-1]) + 2):
+            if ok and leap_free(int(tm[0]) - 3, int(tm[-1]) + 4):
                 return tm, dec
         raise RuntimeError("no layout found")
 
@@ -344,7 +343,7 @@ class PolyGen:
         f0dec = rnd.choice([6, 9, 12, 12, 12, 15])
         F0 = F(round(f0 * 10 ** f0dec), 10 ** f0dec)
         H = F(span, 2)
-        digits = rnd.choice([8, 12, 17, 17, 18, 18, 18, 20])
+        digits = rnd.choice([17, 18, 18, 20] if family == "A" else [8, 12, 17, 17, 18, 18, 18, 20])
         entries = []
         if family == "A":
             # one global phase model phi(tau) = phi0 + 60 F tau + SUM g_k tau^k (tau: minutes from tmids[0]);
@@ -397,6 +396,7 @@ class PolyGen:
         lead = rnd.choice([True, True, False])
         lines = []
         psr = rnd.choice(["B1937+21", "J0437-4715", "0531+21", "FAKE"])
+        obs = rnd.choice(["ao", "1", "@", "gbt"])          # psr, obs, freq, span must agree in a table
         for k in order:
             e = entries[k]
             tms = fmt_fixed(e["tmid"], tdec)
@@ -409,7 +409,7 @@ class PolyGen:
             if rdec == 0 and rnd.random() < 0.5:
                 rs += "."
             f0s = fmt_fixed(e["f0"], f0dec)
-            h2 = "%20s %17s%5s%5d%5d%10.3f" % (rs, f0s, rnd.choice(["ao", "1", "@", "gbt"]), span, ncoeff, 327.0)
+            h2 = "%20s %17s%5s%5d%5d%10.3f" % (rs, f0s, obs, span, ncoeff, 327.0)
             if rnd.random() < 0.3:
                 h2 += "%7.4f%9.4f" % (rnd.random(), rnd.uniform(0.1, 9))
             lines += [h1, h2]
@@ -509,7 +509,7 @@ class Aim:
         for _ in range(100):
             r = rnd.random()
             a, b = rnd.choice(self.merged)
-            d = F(10) ** rnd.randint(-9, 0) * rnd.randint(1, 9) * F(self.span, 1440) + F(30, 86400 * 10 ** 6)
+            d = min(F(10) ** rnd.randint(-9, 0) * rnd.randint(1, 9) * F(self.span, 1440), F(3, 2)) + F(30, 86400 * 10 ** 6)
             x = a - d if r < 0.5 else b + d
             if self.clear(x) and all(not (m[0] - F(1, 10 ** 9) <= x <= m[1] + F(1, 10 ** 9)) for m in self.merged):
                 return x
